@@ -132,13 +132,27 @@ def seq_remove_at(st, s, es, p):
     return r
 
 
+def _has_ite(t):
+    seen = set()
+    todo = [t]
+    while todo:
+        x = todo.pop()
+        if x.get_id() in seen:
+            continue
+        seen.add(x.get_id())
+        if z3.is_app(x) and x.decl().kind() == z3.Z3_OP_ITE:
+            return True
+        todo.extend(x.children())
+    return False
+
+
 def seq_eq(a, b):
     k = z3.Int('k!eq')
     body = z3.Implies(z3.And(0 <= k, k < a.n), z3.Select(a.arr, k) == z3.Select(b.arr, k))
-    try:
-        q = z3.ForAll([k], body, patterns=[z3.Select(a.arr, k)])
-    except z3.Z3Exception:
+    if _has_ite(a.arr):
         q = z3.ForAll([k], body)       # the array term contains if-then-else: let the solver choose triggers
+    else:
+        q = z3.ForAll([k], body, patterns=[z3.Select(a.arr, k)])
     return z3.And(a.n == b.n, q)
 
 
